@@ -921,7 +921,9 @@ func (x *Exec) evalIndex(env *CEnv, n *CIndex) (*CV, error) {
 			env.specHeaps[x.heapName(u.Elem())] = true
 		}
 		_ = es
-		return &CV{T: x.heapRead(env.st, u.Elem(), sBase(bt), App(SBV64, "bvadd", sOff(bt), it)), Ty: u.Elem()}, nil
+		abs := App(SBV64, "bvadd", sOff(bt), it)
+		return &CV{T: x.heapRead(env.st, u.Elem(), sBase(bt), abs), Ty: u.Elem(),
+			Addr: &Loc{Kind: LElem, Base: sBase(bt), Idx: abs, T: u.Elem()}}, nil
 	case *types.Basic:
 		if isString(b.Ty) {
 			return &CV{T: App(SBV8, "gs.at", bt, it), Ty: types.Typ[types.Uint8]}, nil
